@@ -424,6 +424,12 @@ func main() {
 		"", ":", "bitcoin-script:", "bitcoin-script:invalid", "ERROR", withSum("bitcoin-template:0101"),
 		withSum("bitcoin-script:bitcoin-script:0101"), withSum("bitcoin-script::0101"),
 	}
+	// a valid encoding followed by its own checksum digits again (with and without more data in between): the
+	// checksum covers everything before the LAST eight digits, wherever else those digits occur
+	for _, v := range valid[:4] {
+		ck := v[len(v)-8:]
+		adv = append(adv, v+ck, v+"ab"+ck, v+ck+ck, v[:len(v)-8]+ck[:6]+ck, withSum(v), withSum(v+ck))
+	}
 	for _, t := range adv {
 		rr := decode(t)
 		if rr.ok { // accepted => exactly the layout with the checksum of the preceding text
